@@ -1,18 +1,21 @@
-import CohdlVerif.Lemmas.C19Arith
+import CohdlVerif.Lemmas.C19Eq
 
 /-!
-  C19 - property theorems about the mirror `Model/C19.lean` of `cohdl/std/_fixed.py` (with fixes/C19-*.patch
-  applied).  Numbers are compared as integers scaled by a common power of two: a fixed-point value of format
-  `[l:r]` with raw value `v` is the number `v * 2^r`.
+  C19 - property theorems about the mirror `Model/C19.lean` of `cohdl/std/_fixed.py` (the five fixes of
+  fixes/C19-*.patch are committed in /repo; the mirror is of that code).  A fixed-point value of format `[l:r]`
+  with raw value `v` is the number `v * 2^r`; numbers are compared as integers scaled by a common power of two.
 
-  FULL STATEMENT of the resize part (not closed in Lean; tied exhaustively on the grid by harness/c19.py):
-    theorem C19.resize_spec (l r v l' r' rs os) : r ≤ l → r' ≤ l' → inRangeS (l - r + 1) v →
-        resizeS l r v l' r' rs os = .ok (specResizeS r v l' r' rs os)            (and the same for U)
-  Proved below: `C19.resize_spec_partial` - the branch `l ≤ l' ∧ r' ≤ r` (no bit dropped), all styles.
-  Missing: the branches that drop bits on the left (`l > l'`, WRAP / SATURATE) and on the right (`r < r'`,
-  TRUNCATE / ROUND incl. the carry of the rounding increment), and the reduction of disjoint formats to them.
+  `resizeS / resizeU` mirror `resize_fn`, `resizeS1 / resizeU1` mirror `_resize_overlapping`, `resizeSCore /
+  resizeUCore` its case analysis below the same-format shortcut.  `specResizeS / specResizeU` is the
+  specification: exact `v * 2^(r-r')`, truncated toward minus infinity or rounded to nearest-even, then
+  wrapped modulo the target range or clamped to its bounds.
+
+  `C19.resize_spec` / `C19.resize_spec_unsigned` are the FULL statements (all formats, styles, raw values);
+  the theorems `C19.resize_<branch>_spec` are the branches of the code they are assembled from.
 -/
 open CohdlVerif.C19
+
+/-! ## `+ - *` -/
 
 /-- SFixed `*`: result format `[l1+l2+1 : r1+r2]`, raw value the exact product - no error, for all formats and values -/
 theorem C19.mul_exact (l1 r1 v1 l2 r2 v2 : Int) (h1 : r1 ≤ l1) (h2 : r2 ≤ l2)
@@ -60,14 +63,172 @@ theorem C19.sub_exact_unsigned (l1 r1 v1 l2 r2 v2 : Int) (h1 : r1 ≤ l1) (h2 : 
 
 example : arithU .sub 0 0 0 0 (-1) 1 = .ok ⟨1, -1, 7⟩ := by decide
 
-/-- resize, branch `l ≤ l'`, `r' ≤ r` (the target covers the source), every round / overflow style:
-    the mirror returns the value of the spec, which is the source number itself -/
-theorem C19.resize_spec_partial (l r v l' r' : Int) (rs : Round) (os : Ovf) (hlr : r ≤ l)
-    (hv : inRangeS (l - r + 1) v) (hl : l ≤ l') (hr : r' ≤ r) :
-    resizeS l r v l' r' rs os = .ok (specResizeS r v l' r' rs os) := by
-  rw [resizeS_extend l r v l' r' rs os hlr hv hl hr, specS_extend l r v l' r' rs os hlr hv hl hr]
+/-! ## resize, SFixed: the branches of `_resize_overlapping` (formats overlap: `r' ≤ l`, `r ≤ l'`) -/
 
-example : resizeS 0 (-1) (-2) 2 (-2) .round .saturate = .ok (-4) := by decide
+/-- `l ≤ l'`, `r' ≤ r` (the target covers the source): no bit is dropped, every style -/
+theorem C19.resize_extend_spec (l r v l' r' : Int) (rs : Round) (os : Ovf) (hlr : r ≤ l)
+    (hv : inRangeS (l - r + 1) v) (hl : l ≤ l') (hr : r' ≤ r) :
+    resizeSCore l r v l' r' rs os = .ok (specResizeS r v l' r' rs os) := by
+  rw [coreS_ext l r v l' r' rs os hlr hv hl hr, specS_extend l r v l' r' rs os hlr hv hl hr]
+
+example : resizeSCore 0 (-1) (-2) 2 (-2) .round .saturate = .ok (-4) := by decide
+
+/-- left overflow, no right cut, WRAP: the value modulo the target range -/
+theorem C19.resize_overflow_wrap_spec (l r v l' r' : Int) (rs : Round) (hv : inRangeS (l - r + 1) v)
+    (hl : l' < l) (hr : r' ≤ r) (hov : r ≤ l') :
+    resizeSCore l r v l' r' rs .wrap = .ok (specResizeS r v l' r' rs .wrap) :=
+  coreS_ovf_wrap l r v l' r' rs hv hl hr hov
+
+example : resizeSCore 2 0 3 1 (-1) .truncate .wrap = .ok (-2) := by decide
+
+/-- left overflow, no right cut, SATURATE: clamped to the bounds of the target -/
+theorem C19.resize_overflow_saturate_spec (l r v l' r' : Int) (rs : Round) (hv : inRangeS (l - r + 1) v)
+    (hl : l' < l) (hr : r' ≤ r) (hov : r ≤ l') :
+    resizeSCore l r v l' r' rs .saturate = .ok (specResizeS r v l' r' rs .saturate) :=
+  coreS_ovf_sat l r v l' r' rs hv hl hr hov
+
+example : resizeSCore 2 0 3 1 (-1) .truncate .saturate = .ok 3 := by decide
+
+/-- right cut without left overflow, TRUNCATE: floor division by `2^(r'-r)`, every overflow style -/
+theorem C19.resize_truncate_spec (l r v l' r' : Int) (os : Ovf) (hv : inRangeS (l - r + 1) v)
+    (hl : l ≤ l') (hr : r < r') (ht : r' ≤ l) :
+    resizeSCore l r v l' r' .truncate os = .ok (specResizeS r v l' r' .truncate os) :=
+  coreS_cut_trunc l r v l' r' os hv hl hr ht
+
+example : resizeSCore 1 (-2) (-3) 1 (-1) .truncate .wrap = .ok (-2) := by decide
+
+/-- right cut and left overflow, TRUNCATE / WRAP -/
+theorem C19.resize_overflow_truncate_wrap_spec (l r v l' r' : Int) (hv : inRangeS (l - r + 1) v)
+    (hl : l' < l) (hr : r < r') (ht : r' ≤ l') :
+    resizeSCore l r v l' r' .truncate .wrap = .ok (specResizeS r v l' r' .truncate .wrap) :=
+  coreS_ovf_cut_trunc_wrap l r v l' r' hv hl hr ht
+
+/-- right cut and left overflow, TRUNCATE / SATURATE -/
+theorem C19.resize_overflow_truncate_saturate_spec (l r v l' r' : Int) (hv : inRangeS (l - r + 1) v)
+    (hl : l' < l) (hr : r < r') (ht : r' ≤ l') :
+    resizeSCore l r v l' r' .truncate .saturate = .ok (specResizeS r v l' r' .truncate .saturate) :=
+  coreS_ovf_cut_trunc_sat l r v l' r' hv hl hr ht
+
+example : resizeSCore 2 (-2) (-13) 0 (-1) .truncate .saturate = .ok (-2) := by decide
+
+/-- right cut without left overflow, ROUND (nearest, ties to even), every overflow style - including the
+    carry of the rounding increment out of the target when `l = l'` (wraps / saturates as selected) -/
+theorem C19.resize_round_spec (l r v l' r' : Int) (os : Ovf) (hv : inRangeS (l - r + 1) v)
+    (hl : l ≤ l') (hr : r < r') (ht : r' ≤ l) :
+    resizeSCore l r v l' r' .round os = .ok (specResizeS r v l' r' .round os) :=
+  coreS_cut_round l r v l' r' os hv hl hr ht
+
+example : resizeSCore 0 (-2) 3 0 (-1) .round .saturate = .ok 1 := by decide
+example : resizeSCore 0 (-2) 3 0 (-1) .round .wrap = .ok (-2) := by decide
+
+/-- right cut and left overflow, ROUND / WRAP -/
+theorem C19.resize_overflow_round_wrap_spec (l r v l' r' : Int) (hv : inRangeS (l - r + 1) v)
+    (hl : l' < l) (hr : r < r') (ht : r' ≤ l') :
+    resizeSCore l r v l' r' .round .wrap = .ok (specResizeS r v l' r' .round .wrap) :=
+  coreS_ovf_cut_round_wrap l r v l' r' hv hl hr ht
+
+/-- right cut and left overflow, ROUND / SATURATE -/
+theorem C19.resize_overflow_round_saturate_spec (l r v l' r' : Int) (hv : inRangeS (l - r + 1) v)
+    (hl : l' < l) (hr : r < r') (ht : r' ≤ l') :
+    resizeSCore l r v l' r' .round .saturate = .ok (specResizeS r v l' r' .round .saturate) :=
+  coreS_ovf_cut_round_sat l r v l' r' hv hl hr ht
+
+example : resizeSCore 1 (-2) (-1) 0 (-1) .round .saturate = .ok 0 := by decide
+
+/-- `_resize_overlapping`: every pair of overlapping formats, every style, every raw value -/
+theorem C19.resize_overlapping_spec (l r v l' r' : Int) (rs : Round) (os : Ovf) (hlr : r ≤ l) (hlr' : r' ≤ l')
+    (hv : inRangeS (l - r + 1) v) (ho1 : r' ≤ l) (ho2 : r ≤ l') :
+    resizeS1 l r v l' r' rs os = .ok (specResizeS r v l' r' rs os) :=
+  resizeS1_spec l r v l' r' rs os hlr hlr' hv ho1 ho2
+
+/-- formats without a common bit position: the source is extended exactly (constructor from another format),
+    then `_resize_overlapping` applies - the result is the spec's -/
+theorem C19.resize_disjoint_spec (l r v l' r' : Int) (rs : Round) (os : Ovf) (hlr : r ≤ l) (hlr' : r' ≤ l')
+    (hv : inRangeS (l - r + 1) v) (_hd : l < r' ∨ l' < r) :
+    resizeS l r v l' r' rs os = .ok (specResizeS r v l' r' rs os) :=
+  resizeS_spec l r v l' r' rs os hlr hlr' hv
+
+example : resizeS 1 0 (-1) (-1) (-1) .round .saturate = .ok (-1) := by decide
+example : resizeS (-1) (-1) (-1) 0 0 .round .wrap = .ok 0 := by decide
+
+/-- C19, resize, FULL STATEMENT (SFixed): for all source and target formats, both round styles, both overflow
+    styles and every raw value of the source format, `resize_fn` returns without error the raw value of the
+    specification -/
+theorem C19.resize_spec (l r v l' r' : Int) (rs : Round) (os : Ovf) (hlr : r ≤ l) (hlr' : r' ≤ l')
+    (hv : inRangeS (l - r + 1) v) :
+    resizeS l r v l' r' rs os = .ok (specResizeS r v l' r' rs os) :=
+  resizeS_spec l r v l' r' rs os hlr hlr' hv
+
+example : resizeS (-1) (-3) 3 (-1) (-2) .round .saturate = .ok 1 := by decide
+
+/-! ## resize, UFixed -/
+
+theorem C19.resize_extend_spec_unsigned (l r v l' r' : Int) (rs : Round) (os : Ovf) (hlr : r ≤ l)
+    (hv : inRangeU (l - r + 1) v) (hl : l ≤ l') (hr : r' ≤ r) :
+    resizeUCore l r v l' r' rs os = .ok (specResizeU r v l' r' rs os) := by
+  rw [coreU_ext l r v l' r' rs os hlr hv hl hr, specU_ext l r v l' r' rs os hlr hv hl hr]
+
+theorem C19.resize_overflow_wrap_spec_unsigned (l r v l' r' : Int) (rs : Round) (hv : inRangeU (l - r + 1) v)
+    (hl : l' < l) (hr : r' ≤ r) (hov : r ≤ l') :
+    resizeUCore l r v l' r' rs .wrap = .ok (specResizeU r v l' r' rs .wrap) :=
+  coreU_ovf_wrap l r v l' r' rs hv hl hr hov
+
+theorem C19.resize_overflow_saturate_spec_unsigned (l r v l' r' : Int) (rs : Round) (hv : inRangeU (l - r + 1) v)
+    (hl : l' < l) (hr : r' ≤ r) (hov : r ≤ l') :
+    resizeUCore l r v l' r' rs .saturate = .ok (specResizeU r v l' r' rs .saturate) :=
+  coreU_ovf_sat l r v l' r' rs hv hl hr hov
+
+example : resizeUCore 2 0 5 1 (-1) .truncate .saturate = .ok 7 := by decide
+
+theorem C19.resize_truncate_spec_unsigned (l r v l' r' : Int) (os : Ovf) (hv : inRangeU (l - r + 1) v)
+    (hl : l ≤ l') (hr : r < r') (ht : r' ≤ l) :
+    resizeUCore l r v l' r' .truncate os = .ok (specResizeU r v l' r' .truncate os) :=
+  coreU_cut_trunc l r v l' r' os hv hl hr ht
+
+theorem C19.resize_overflow_truncate_wrap_spec_unsigned (l r v l' r' : Int) (hv : inRangeU (l - r + 1) v)
+    (hl : l' < l) (hr : r < r') (ht : r' ≤ l') :
+    resizeUCore l r v l' r' .truncate .wrap = .ok (specResizeU r v l' r' .truncate .wrap) :=
+  coreU_ovf_cut_trunc_wrap l r v l' r' hv hl hr ht
+
+theorem C19.resize_overflow_truncate_saturate_spec_unsigned (l r v l' r' : Int) (hv : inRangeU (l - r + 1) v)
+    (hl : l' < l) (hr : r < r') (ht : r' ≤ l') :
+    resizeUCore l r v l' r' .truncate .saturate = .ok (specResizeU r v l' r' .truncate .saturate) :=
+  coreU_ovf_cut_trunc_sat l r v l' r' hv hl hr ht
+
+theorem C19.resize_round_spec_unsigned (l r v l' r' : Int) (os : Ovf) (hv : inRangeU (l - r + 1) v)
+    (hl : l ≤ l') (hr : r < r') (ht : r' ≤ l) :
+    resizeUCore l r v l' r' .round os = .ok (specResizeU r v l' r' .round os) :=
+  coreU_cut_round l r v l' r' os hv hl hr ht
+
+example : resizeUCore 0 (-2) 7 0 (-1) .round .saturate = .ok 3 := by decide
+
+theorem C19.resize_overflow_round_wrap_spec_unsigned (l r v l' r' : Int) (hv : inRangeU (l - r + 1) v)
+    (hl : l' < l) (hr : r < r') (ht : r' ≤ l') :
+    resizeUCore l r v l' r' .round .wrap = .ok (specResizeU r v l' r' .round .wrap) :=
+  coreU_ovf_cut_round_wrap l r v l' r' hv hl hr ht
+
+theorem C19.resize_overflow_round_saturate_spec_unsigned (l r v l' r' : Int) (hv : inRangeU (l - r + 1) v)
+    (hl : l' < l) (hr : r < r') (ht : r' ≤ l') :
+    resizeUCore l r v l' r' .round .saturate = .ok (specResizeU r v l' r' .round .saturate) :=
+  coreU_ovf_cut_round_sat l r v l' r' hv hl hr ht
+
+example : resizeUCore 1 (-2) 3 0 (-1) .round .saturate = .ok 2 := by decide
+
+theorem C19.resize_overlapping_spec_unsigned (l r v l' r' : Int) (rs : Round) (os : Ovf) (hlr : r ≤ l)
+    (hlr' : r' ≤ l') (hv : inRangeU (l - r + 1) v) (ho1 : r' ≤ l) (ho2 : r ≤ l') :
+    resizeU1 l r v l' r' rs os = .ok (specResizeU r v l' r' rs os) :=
+  resizeU1_spec l r v l' r' rs os hlr hlr' hv ho1 ho2
+
+/-- C19, resize, FULL STATEMENT (UFixed) -/
+theorem C19.resize_spec_unsigned (l r v l' r' : Int) (rs : Round) (os : Ovf) (hlr : r ≤ l) (hlr' : r' ≤ l')
+    (hv : inRangeU (l - r + 1) v) :
+    resizeU l r v l' r' rs os = .ok (specResizeU r v l' r' rs os) :=
+  resizeU_spec l r v l' r' rs os hlr hlr' hv
+
+example : resizeU (-2) (-3) 3 (-2) (-2) .round .saturate = .ok 1 := by decide
+example : resizeU 0 0 1 (-2) (-2) .truncate .saturate = .ok 1 := by decide
+
+/-! ## constructors -/
 
 /-- constructor from another format: accepted exactly when the target covers the source (a type-level
     decision), and then the represented number is preserved (`raw' * 2^tr = v * 2^sr`) -/
@@ -89,9 +250,38 @@ theorem C19.ctor_preserves_signed (l r sw v : Int) (hlr : r ≤ l) (hsw : 1 ≤ 
 
 example : ctorSignedS 2 (-1) 2 (-2) = .ok (-4) := by decide
 
-/-- `__eq__` of two values of the same format compares the raw values, i.e. the represented numbers
-    (scaled by the common exponent `2^k`) -/
-theorem C19.eq_compares_numbers_partial (v1 v2 k : Int) : (v1 == v2) = true ↔ v1 * p2 k = v2 * p2 k := by
+/-- SFixed from `Unsigned[sw]` (needs one more bit for the sign) and UFixed from `Unsigned[sw]` -/
+theorem C19.ctor_preserves_from_unsigned (l r sw v : Int) (hsw : 1 ≤ sw) (hv : inRangeU sw v) (hr : r ≤ 0) :
+    (sw - r ≤ l - r → ctorUnsignedS l r sw v = .ok (v * p2 (-r))) ∧
+    (sw - r ≤ l - r + 1 → ctorUnsignedU l r sw v = .ok (v * p2 (-r))) :=
+  ⟨ctorUnsignedS_ok l r sw v hsw hv hr, ctorUnsignedU_ok l r sw v hsw hv hr⟩
+
+example : ctorUnsignedS 2 (-1) 2 3 = .ok 6 := by decide
+
+/-- constructor from a python number `m * 2^e` (int or float) that the format can represent (it equals
+    `v * 2^r` for a raw value `v` of the format): accepted, and the raw value is `v` -/
+theorem C19.ctor_preserves_number (l r v m e : Int) (hlr : r ≤ l) (h : dyEq v r m e) :
+    (inRangeS (l - r + 1) v → ctorNumS l r m e = .ok v) ∧ (inRangeU (l - r + 1) v → ctorNumU l r m e = .ok v) :=
+  ⟨fun hv => ctorNumS_representable l r v m e hlr hv h, fun hv => ctorNumU_representable l r v m e hlr hv h⟩
+
+example : dyEq (-3) (-1) (-3) (-1) ∧ ctorNumS 1 (-1) (-3) (-1) = .ok (-3) :=
+  ⟨by unfold dyEq; decide, by decide⟩
+
+/-! ## `__eq__` -/
+
+/-- `x == number` (python int / float `m * 2^e`): whenever it returns (numbers outside the range of the format
+    are rejected by `static_assert`), the answer is the comparison of the two represented numbers -/
+theorem C19.eq_compares_numbers (l r v m e : Int) (b : Bool) :
+    (eqNumS l r v m e = .ok b → (b = true ↔ dyEq v r m e)) ∧
+    (eqNumU l r v m e = .ok b → (b = true ↔ dyEq v r m e)) :=
+  ⟨eqNumS_spec l r v m e b, eqNumU_spec l r v m e b⟩
+
+example : eqNumS (-2) (-2) 0 (-1) (-3) = .ok false := by decide
+example : eqNumS 1 (-1) 3 3 (-1) = .ok true := by decide
+
+/-- `__eq__` of two values of the same format (other formats are rejected by `assert type(other) is type(self)`)
+    compares the raw values, i.e. the represented numbers scaled by the common exponent `2^k` -/
+theorem C19.eq_compares_numbers_same_format (v1 v2 k : Int) : (v1 == v2) = true ↔ v1 * p2 k = v2 * p2 k := by
   have hk := p2_pos k
   constructor
   · intro h; rw [eq_of_beq h]
